@@ -26,6 +26,8 @@ TU = "scriptplan/_cython/time_utils_cy.pyx"
 MP = "scriptplan/parser/macro_processor.py"
 
 MUTANTS = [
+    # ------------------------------------------------------------------ revert of repaired defect F76 (C13)
+    ("c13_index_times_resolution_in_c_int", "C13", [(TU, "    seconds = <long long>idx * granularity\n", "    seconds = idx * granularity\n")]),
     # ------------------------------------------------------------------ revert of repaired defect F75 (C04 / C07)
     ("c04_inherited_option_dict_cloned_whole", "C04", [(PR, "    if isinstance(value, dict):\n        return {key: deep_clone(item) for key, item in value.items()}\n", "")]),
     # ------------------------------------------------------------------ revert of repaired defect F74 (C11)
